@@ -536,3 +536,440 @@ Proof.
   unfold run. induction ops as [|o r IH]; simpl; intros s H Hok; auto.
   destruct Hok as [H1 H2]. apply IH; auto. apply step_Inv; auto.
 Qed.
+
+(* ============================================== construction: invariant *)
+Lemma init_phases_entries pid pl p :
+  (forall pl0, pl = Some pl0 -> sortedk pl0) -> (forall x, In x pid -> -1 <= x) ->
+  init_phases pid pl = Ok p ->
+  forall i ph, In (i, ph) p ->
+    (i = -1 /\ ph = ni_phase) \/
+    (i <> -1 /\ (ph = default_phase \/ exists pl0, pl = Some pl0 /\ In ph (map snd pl0))).
+Proof.
+  intros Hpl Hlow. unfold init_phases.
+  pose proof (uniq_sorted pid) as Hu.
+  destruct (uniq pid) as [|u0 ur] eqn:E; [discriminate|].
+  intros H. inversion H; subst; clear H.
+  assert (Hu0 : -1 <= u0) by (apply Hlow, uniq_In; rewrite E; left; auto).
+  set (u := if u0 =? -1 then ur else u0 :: ur).
+  assert (Hsu : sortedZ u) by (unfold u; destruct (u0 =? -1); [apply Hu|auto]).
+  assert (Hgt : forall x, In x u -> -1 < x).
+  { unfold u. destruct (u0 =? -1) eqn:E0; intros x Hx.
+    - apply Z.eqb_eq in E0. subst. eapply sortedZ_tail_gt; eauto.
+    - apply Z.eqb_neq in E0. destruct Hx as [Hx|Hx]; [subst; lia|].
+      pose proof (sortedZ_tail_gt _ _ _ Hu Hx). lia. }
+  set (q := match pl with None => pl_default u | Some pl0 => reconcile pl0 u end).
+  assert (Hq : ids q = u).
+  { unfold q. destruct pl as [pl0|].
+    - apply reconcile_ids; auto.
+    - rewrite pl_default_eq by auto. unfold ids. rewrite map_map. simpl. apply map_id. }
+  assert (Hsq : sortedk q) by (apply sortedk_ids; rewrite Hq; auto).
+  assert (Hv : forall i ph, In (i, ph) q ->
+          i <> -1 /\ (ph = default_phase \/ exists pl0, pl = Some pl0 /\ In ph (map snd pl0))).
+  { intros i ph Hin. split.
+    - apply In_ids in Hin. rewrite Hq in Hin. specialize (Hgt _ Hin). lia.
+    - unfold q in Hin. destruct pl as [pl0|].
+      + destruct (reconcile_values pl0 u i ph (Hpl _ eq_refl) Hsu Hin); eauto.
+      + rewrite pl_default_eq in Hin by auto. apply in_map_iff in Hin.
+        destruct Hin as [j [Ej _]]. inversion Ej; auto. }
+  fold u. fold q. intros i ph Hin.
+  destruct (u0 =? -1) eqn:E0; [|right; auto].
+  rewrite add_not_indexed_new in Hin; auto.
+  - destruct Hin as [Hin|Hin]; [inversion Hin; auto|right; auto].
+  - rewrite Hq. apply Forall_forall. auto.
+Qed.
+
+(* After construction from ANY phase-id array (ids >= -1) and ANY sorted phase
+   list without a phase named "not_indexed", the invariant holds. *)
+Theorem init_Inv pid pl props st :
+  (forall pl0, pl = Some pl0 -> sortedk pl0 /\ ~ In ni_name (names pl0)) ->
+  (forall x, In x pid -> -1 <= x) ->
+  init pid pl props = Ok st -> Inv st.
+Proof.
+  intros Hpl Hlow. unfold init. destruct (init_phases pid pl) as [p|] eqn:E; [|discriminate].
+  intros H. inversion H; subst; clear H.
+  assert (Hpl' : forall pl0, pl = Some pl0 -> sortedk pl0) by (intros; apply Hpl; auto).
+  destruct (init_phases_ids pid pl p Hpl' E) as [Hids Hs].
+  split; simpl; [split; [auto|split]|].
+  - intros i ph Hin.
+    destruct (init_phases_entries pid pl p Hpl' Hlow E i ph Hin) as [[E1 E2]|[E1 E2]].
+    + subst. split; intros; reflexivity.
+    + split; [|tauto]. intros Hn. exfalso. destruct E2 as [E2|[pl0 [E2 E3]]].
+      * subst. cbv in Hn. discriminate.
+      * apply (proj2 (Hpl _ E2)). apply in_map_iff in E3. destruct E3 as [[j q] [E3 E4]].
+        simpl in E3. subst q. apply names_In. exists j, ph. split; auto.
+  - intros i Hi. rewrite Hids in Hi. apply (proj1 (uniq_In _ _)) in Hi. apply Hlow; auto.
+  - intros x Hx. rewrite Hids. apply uniq_In; auto.
+Qed.
+
+(* id -1 is listed iff it occurs in the data, whatever the caller's list holds *)
+Lemma init_ni_iff pid pl p :
+  (forall pl0, pl = Some pl0 -> sortedk pl0) ->
+  init_phases pid pl = Ok p -> (In (-1) (ids p) <-> In (-1) pid).
+Proof.
+  intros Hpl E. destruct (init_phases_ids pid pl p Hpl E) as [Hids _].
+  rewrite Hids. apply uniq_In.
+Qed.
+
+(* ================================================== phases_in_data *)
+Lemma filter_ids_sorted_eq (pl : plist) (u : list Z) :
+  sortedk pl -> sortedZ u -> (forall x, In x u -> In x (ids pl)) ->
+  ids (filter (fun kv => memZ (fst kv) u) pl) = u.
+Proof.
+  intros Hs Hu Hin. apply sortedZ_ext; auto.
+  - apply sortedk_ids, sortedk_filter; auto.
+  - intros x. rewrite (ids_filter_In (fun i => memZ i u)), memZ_In. split; [tauto|]. auto.
+Qed.
+
+Lemma filter_all_true {A} (f : A -> bool) l : (forall x, In x l -> f x = true) -> filter f l = l.
+Proof. apply filter_all_id. Qed.
+
+Definition present (st : store) (v : view) : list Z := uniq (view_pid st v).
+
+(* several phases in the selection: exactly the listed entries of the ids present *)
+Theorem phases_in_data_many st v : Inv st -> (2 <= List.length (present st v))%nat ->
+  exists sel, phases_in_data st v = Ok sel /\ ids sel = present st v /\
+              (forall x, In x sel -> In x (s_phases st)) /\ sortedk sel.
+Proof.
+  intros [[Hs [Hn Hl]] He] Hlen. unfold phases_in_data. fold (present st v).
+  set (u := present st v) in *.
+  assert (Hu : sortedZ u) by apply uniq_sorted.
+  assert (Hin : forall x, In x u -> In x (ids (s_phases st))).
+  { intros x Hx. apply (proj1 (uniq_In _ _)) in Hx. apply select_by_In in Hx. auto. }
+  rewrite filter_all_true by (intros x Hx; apply memZ_In; auto).
+  set (sel := filter (fun kv => memZ (fst kv) u) (s_phases st)).
+  assert (Hids : ids sel = u) by (apply filter_ids_sorted_eq; auto).
+  pose proof (by_ids_spec (s_phases st) u Hs Hin) as R. fold sel in R.
+  assert (Hl2 : (2 <= List.length sel)%nat).
+  { rewrite <- Hids in Hlen. unfold ids in Hlen. rewrite map_length in Hlen. auto. }
+  assert (Hsub : forall x, In x sel -> In x (s_phases st)).
+  { intros x Hx. apply filter_In in Hx. tauto. }
+  assert (Hss : sortedk sel) by (apply sortedk_filter; auto).
+  exists sel. clearbody sel.
+  destruct sel as [|a [|b r]]; simpl in Hl2; try lia.
+  simpl in R. cbn [index]. rewrite R. auto.
+Qed.
+
+Lemma filter_single (pl : plist) i p : sortedk pl -> dict_get i pl = Some p ->
+  filter (fun kv => memZ (fst kv) [i]) pl = [(i, p)].
+Proof.
+  intros Hs Hg. apply sortedk_ext.
+  - apply sortedk_filter; auto.
+  - simpl. split; [constructor|auto].
+  - intros [j q]. rewrite filter_In, memZ_In. simpl. split.
+    + intros [H1 [H2|[]]]. subst j. left.
+      apply In_dict_get in H1; [|apply sortedk_NoDup; auto]. congruence.
+    + intros [H|[]]. inversion H; subst. split; [apply dict_get_In; auto|auto].
+Qed.
+
+Lemma first_id_exists s (pl : plist) : In s (names pl) -> exists j, first_id_with_name s pl = Some j.
+Proof.
+  intros H. destruct (first_id_with_name s pl) eqn:E; eauto.
+  apply first_id_with_name_None in E. tauto.
+Qed.
+
+Lemma first_id_unique (pl : plist) i p :
+  (forall j q, In (j, q) pl -> pname q = pname p -> j = i) -> In (i, p) pl ->
+  first_id_with_name (pname p) pl = Some i.
+Proof.
+  induction pl as [|[k q] r IH]; simpl; intros Hu Hin; [tauto|].
+  destruct (String.eqb (pname p) (pname q)) eqn:E.
+  - apply String.eqb_eq in E. f_equal. apply (Hu k q); auto.
+  - destruct Hin as [Hin|Hin].
+    + inversion Hin; subst. rewrite String.eqb_refl in E. discriminate.
+    + apply IH; auto. intros j q' Hj. apply Hu. auto.
+Qed.
+
+(* one phase in the selection: the phase is the right one; its id label is the
+   FIRST id carrying that name (id_from_name) *)
+Theorem phases_in_data_single st v i p : Inv st -> present st v = [i] ->
+  dict_get i (s_phases st) = Some p ->
+  exists j, first_id_with_name (pname p) (s_phases st) = Some j /\
+            phases_in_data st v = Ok [(j, p)] /\ In j (ids (s_phases st)).
+Proof.
+  intros [[Hs [Hn Hl]] He] Hp Hg. unfold phases_in_data. fold (present st v). rewrite Hp.
+  assert (Hi : In i (ids (s_phases st))).
+  { apply dict_get_In, In_ids in Hg. auto. }
+  simpl filter. replace (memZ i (ids (s_phases st))) with true by (symmetry; apply memZ_In; auto).
+  cbn [index].
+  pose proof (by_ids_spec (s_phases st) [i] Hs) as R.
+  rewrite (filter_single _ i p Hs Hg) in R. simpl in R. rewrite R.
+  2:{ intros k [Hk|[]]. subst; auto. }
+  destruct (first_id_exists (pname p) (s_phases st)) as [j Hj].
+  { apply names_In. exists i, p. split; auto. apply dict_get_In; auto. }
+  exists j. unfold id_from_name. rewrite Hj. repeat split; auto.
+  eapply first_id_with_name_In; eauto.
+Qed.
+
+(* ... and the label is right when no smaller id carries the same name *)
+Corollary phases_in_data_single_exact st v i p : Inv st -> present st v = [i] ->
+  dict_get i (s_phases st) = Some p ->
+  (forall j q, In (j, q) (s_phases st) -> pname q = pname p -> j = i) ->
+  phases_in_data st v = Ok [(i, p)].
+Proof.
+  intros HI Hp Hg Hu. destruct (phases_in_data_single st v i p HI Hp Hg) as [j [H1 [H2 _]]].
+  rewrite (first_id_unique _ i p Hu) in H1 by (apply dict_get_In; auto).
+  inversion H1; subst. auto.
+Qed.
+
+(* ====================================================== orientations *)
+Lemma slice_all_single j p : -1 <= j -> by_slice [(j, p)] None None None = IOne p.
+Proof.
+  intros Hj.
+  assert (Hs : sortedk [(j, p)]) by (simpl; split; [constructor|auto]).
+  set (n := slice_len [(j, p)]).
+  assert (Hn : n = j + 1 - slice_start [(j, p)] /\ 1 <= n).
+  { unfold n, slice_len, slice_start. simpl. destruct (j =? -1) eqn:E; [apply Z.eqb_eq in E|apply Z.eqb_neq in E]; lia. }
+  assert (Hp : slice_indices n None None None = Some (range_from (Z.to_nat n) 0 n 1)) by reflexivity.
+  pose proof (by_slice_spec [(j, p)] None None None _ Hs ltac:(discriminate) Hp) as R.
+  simpl filter in R.
+  replace (memZ (j - slice_start [(j, p)]) (range_from (Z.to_nat n) 0 n 1)) with true in R; [exact R|].
+  symmetry. apply memZ_In. apply range_from_In_step1; lia.
+Qed.
+
+Theorem orientations_single st v i p : Inv st -> present st v = [i] ->
+  dict_get i (s_phases st) = Some p ->
+  orientations st v = match ppg p with Some g => Ok g | None => Err TypeError end.
+Proof.
+  intros HI Hp Hg. destruct (phases_in_data_single st v i p HI Hp Hg) as [j [_ [H2 H3]]].
+  unfold orientations. rewrite H2. simpl List.length. simpl Nat.eqb. cbn [index].
+  rewrite slice_all_single; auto.
+  destruct HI as [[_ [_ Hl]] _]. auto.
+Qed.
+
+Theorem orientations_many st v : Inv st -> (2 <= List.length (present st v))%nat ->
+  orientations st v = Err ValueError.
+Proof.
+  intros HI Hl. destruct (phases_in_data_many st v HI Hl) as [sel [H1 [H2 _]]].
+  unfold orientations. rewrite H1.
+  assert (List.length sel = List.length (present st v)).
+  { rewrite <- H2. unfold ids. rewrite map_length. auto. }
+  destruct (Nat.eqb (List.length sel) 1) eqn:E; auto. apply Nat.eqb_eq in E. lia.
+Qed.
+
+(* ============================================================ frames *)
+(* assignment of phase ids through a selection v: the selected points take the
+   values, every other point of the underlying map keeps its id *)
+Theorem set_pid_scalar_frame st v z : List.length v = List.length (s_pid st) ->
+  let st' := fst (set_pid st v (PScalar z)) in
+  select_by v (s_pid st') = repeat z (count v) /\
+  select_by (map negb v) (s_pid st') = select_by (map negb v) (s_pid st) /\
+  s_props st' = s_props st.
+Proof. intros H. simpl. destruct (select_by_fill v z (s_pid st) H). auto. Qed.
+
+Theorem set_pid_array_frame st v zs : List.length v = List.length (s_pid st) ->
+  List.length zs = count v -> (2 <= List.length zs)%nat ->
+  let st' := fst (set_pid st v (PArr zs)) in
+  select_by v (s_pid st') = zs /\
+  select_by (map negb v) (s_pid st') = select_by (map negb v) (s_pid st) /\
+  s_props st' = s_props st /\ s_phases st' = s_phases st /\
+  snd (set_pid st v (PArr zs)) = Some ValueError.
+Proof.
+  intros H Hc Hl. destruct zs as [|z [|z' r]]; simpl in Hl; try lia.
+  unfold set_pid. rewrite Hc, Nat.eqb_refl. simpl.
+  destruct (select_by_scatter v (z :: z' :: r) (s_pid st) H Hc). auto.
+Qed.
+
+(* a wrong-length array is rejected and nothing changes *)
+Theorem set_pid_array_bad_length st v zs : (2 <= List.length zs)%nat ->
+  List.length zs <> count v -> set_pid st v (PArr zs) = (st, Some ValueError).
+Proof.
+  intros Hl Hc. destruct zs as [|z [|z' r]]; simpl in Hl; try lia.
+  unfold set_pid. apply Nat.eqb_neq in Hc. rewrite Hc. auto.
+Qed.
+
+Lemma prop_get_set_same k a d : prop_get k (prop_set k a d) = Some a.
+Proof.
+  induction d as [|[k' a'] r IH]; simpl.
+  - rewrite String.eqb_refl. auto.
+  - destruct (String.eqb k k') eqn:E; simpl; rewrite ?String.eqb_refl, ?E; auto.
+Qed.
+
+Lemma prop_get_set_other k k' a d : k <> k' -> prop_get k' (prop_set k a d) = prop_get k' d.
+Proof.
+  intros Hne. induction d as [|[k2 a2] r IH]; simpl.
+  - replace (String.eqb k' k) with false; auto. symmetry. apply String.eqb_neq. auto.
+  - destruct (String.eqb k k2) eqn:E; simpl.
+    + apply String.eqb_eq in E. subst k2.
+      replace (String.eqb k' k) with false; auto. symmetry. apply String.eqb_neq. auto.
+    + destruct (String.eqb k' k2); auto.
+Qed.
+
+Lemma cast_same a : cast (pdt a) a = a.
+Proof.
+  destruct a as [d l]. unfold cast. simpl. f_equal.
+  rewrite <- (map_id l) at 2. apply map_ext. intros x. destruct d; auto.
+Qed.
+
+(* property assignment through a selection, value dtype = array dtype:
+   exactly the selected points change *)
+Theorem set_prop_scalar_frame st v k a z :
+  prop_get k (s_props st) = Some a -> List.length v = List.length (pvals a) ->
+  let st' := fst (set_prop st v k (VScalar (pdt a) z)) in
+  exists a', prop_get k (s_props st') = Some a' /\ pdt a' = pdt a /\
+    select_by v (pvals a') = repeat z (count v) /\
+    select_by (map negb v) (pvals a') = select_by (map negb v) (pvals a) /\
+    s_pid st' = s_pid st /\ s_phases st' = s_phases st /\
+    (forall k', k' <> k -> prop_get k' (s_props st') = prop_get k' (s_props st)).
+Proof.
+  intros Hg Hl. unfold set_prop. rewrite Hg, cast_same. simpl.
+  destruct (select_by_fill v z (pvals a) Hl) as [H1 H2].
+  eexists. split; [apply prop_get_set_same|]. simpl. repeat split; auto.
+  intros k' Hk. apply prop_get_set_other. auto.
+Qed.
+
+Theorem set_prop_array_frame st v k a zs :
+  prop_get k (s_props st) = Some a -> List.length v = List.length (pvals a) ->
+  List.length zs = count v -> (2 <= List.length zs)%nat ->
+  let st' := fst (set_prop st v k (VArr (pdt a) zs)) in
+  exists a', prop_get k (s_props st') = Some a' /\ pdt a' = pdt a /\
+    select_by v (pvals a') = zs /\
+    select_by (map negb v) (pvals a') = select_by (map negb v) (pvals a) /\
+    s_pid st' = s_pid st /\ s_phases st' = s_phases st /\
+    (forall k', k' <> k -> prop_get k' (s_props st') = prop_get k' (s_props st)).
+Proof.
+  intros Hg Hl Hc H2. unfold set_prop. rewrite Hg, cast_same.
+  destruct zs as [|z [|z' r]]; simpl in H2; try lia.
+  rewrite Hc, Nat.eqb_refl. simpl.
+  destruct (select_by_scatter v (z :: z' :: r) (pvals a) Hl Hc) as [G1 G2].
+  eexists. split; [apply prop_get_set_same|]. simpl. repeat split; auto.
+  intros k' Hk. apply prop_get_set_other. auto.
+Qed.
+
+(* int array, float value: outside the selection the same NUMBERS (x = 4x quarters) *)
+Lemma select_by_map {A B} (f : A -> B) (v : view) : forall l, select_by v (map f l) = map f (select_by v l).
+Proof.
+  induction v as [|b v IH]; intros [|x l]; simpl; auto. destruct b; simpl; rewrite IH; auto.
+Qed.
+
+Theorem set_prop_int_to_float_frame st v k l z :
+  prop_get k (s_props st) = Some (mkArr DInt l) -> List.length v = List.length l ->
+  let st' := fst (set_prop st v k (VScalar DFlt z)) in
+  exists a', prop_get k (s_props st') = Some a' /\ pdt a' = DFlt /\
+    select_by v (pvals a') = repeat z (count v) /\
+    select_by (map negb v) (pvals a') = map (fun x => x * 4) (select_by (map negb v) l).
+Proof.
+  intros Hg Hl. unfold set_prop. rewrite Hg. simpl.
+  assert (Hl' : List.length v = List.length (map (cast1 DInt DFlt) l)) by (rewrite map_length; auto).
+  destruct (select_by_fill v z (map (cast1 DInt DFlt) l) Hl') as [H1 H2].
+  eexists. split; [apply prop_get_set_same|]. simpl. repeat split; auto.
+  rewrite H2, select_by_map. auto.
+Qed.
+
+(* ======================================================== selections *)
+Lemma map2_nth {A B C} (f : A -> B -> C) : forall a b k da db dc,
+  (k < List.length a)%nat -> (k < List.length b)%nat ->
+  nth k (map2 f a b) dc = f (nth k a da) (nth k b db).
+Proof.
+  induction a as [|x a IH]; intros [|y b] k da db dc Ha Hb; simpl in *; try lia.
+  destruct k; auto. apply IH; lia.
+Qed.
+
+Lemma name_hits_spec pl k x : name_hits pl k x = true <->
+  exists i p, In (i, p) pl /\
+    ((k = pname p /\ x = i) \/ (k <> pname p /\ k = "indexed"%string /\ x <> -1)).
+Proof.
+  unfold name_hits. rewrite existsb_exists. split.
+  - intros [[i p] [Hin H]]. simpl in H. exists i, p. split; auto.
+    destruct (String.eqb k (pname p)) eqn:E.
+    + apply String.eqb_eq in E. apply Z.eqb_eq in H. auto.
+    + apply String.eqb_neq in E. apply andb_true_iff in H. destruct H as [H1 H2].
+      apply String.eqb_eq in H1. apply negb_true_iff, Z.eqb_neq in H2. auto.
+  - intros [i [p [Hin H]]]. exists (i, p). split; auto. simpl.
+    destruct H as [[H1 H2]|[H1 [H2 H3]]].
+    + subst. rewrite String.eqb_refl. apply Z.eqb_refl.
+    + apply String.eqb_neq in H1. rewrite H1. subst k. simpl. apply negb_true_iff, Z.eqb_neq. auto.
+Qed.
+
+(* selection by phase names: a point is selected iff it was in the selection
+   and one of the keys names its phase (or is "indexed" and the point is indexed) *)
+Theorem select_names_spec st v ks v' k :
+  select st v (SNames ks) = Ok v' -> (k < List.length v)%nat -> List.length v = List.length (s_pid st) ->
+  nth k v' false = nth k v false && existsb (fun n => name_hits (s_phases st) n (nth k (s_pid st) 0)) ks.
+Proof.
+  intros H Hk Hl. simpl in H. inversion H; subst.
+  rewrite (map2_nth _ v (s_pid st) k false 0 false) by lia. reflexivity.
+Qed.
+
+Lemma scatter_false_subset (v : view) : forall (m : list bool) k,
+  nth k (scatter v m (map (fun _ => false) v)) false = true -> nth k v false = true.
+Proof.
+  induction v as [|b v IH]; intros m k; simpl; [destruct k; auto|].
+  destruct b.
+  - destruct m as [|y m]; destruct k; simpl; auto; apply IH.
+  - destruct k; simpl; auto. apply IH.
+Qed.
+
+(* selections only ever shrink, and never touch the store *)
+Theorem select_subset st v s v' k :
+  select st v s = Ok v' -> nth k v' false = true -> nth k v false = true.
+Proof.
+  destruct s as [ks|m]; simpl.
+  - intros H. inversion H; subst. clear H. revert k. generalize (s_pid st) as l.
+    induction v as [|b v IH]; intros [|x l] k; simpl; try (destruct k; simpl; intros; discriminate).
+    destruct k; simpl.
+    + intros H. apply andb_true_iff in H. tauto.
+    + apply IH.
+  - destruct (Nat.eqb (List.length m) (count v)); [|discriminate].
+    intros H. inversion H; subst. apply scatter_false_subset.
+Qed.
+
+Lemma select_by_mask_scatter (v : view) : forall (m : list bool),
+  List.length m = count v -> select_by v (scatter v m (map (fun _ => false) v)) = m.
+Proof.
+  intros m H. apply (select_by_scatter v m (map (fun _ => false) v)); auto.
+  rewrite map_length. auto.
+Qed.
+
+(* ================================ the linking rule, remaining closed forms *)
+(* ids exactly those of the data: the list is kept as it is *)
+Theorem reconcile_same_ids pl : sortedk pl -> reconcile pl (ids pl) = pl.
+Proof.
+  intros Hs. rewrite reconcile_equal.
+  - apply combine_ids_snd.
+  - apply sortedk_ids; auto.
+  - unfold ids. rewrite map_length. auto.
+Qed.
+
+(* every id of the data is listed: the phases of the ids present keep their ids,
+   all the others are dropped *)
+Theorem reconcile_superset pl u : sortedk pl -> sortedZ u ->
+  (forall x, In x u -> In x (ids pl)) ->
+  reconcile pl u = filter (fun kv => memZ (fst kv) u) pl.
+Proof.
+  intros Hs Hu Hin.
+  assert (Hn := sortedk_NoDup _ Hs). assert (Hnu := sortedZ_NoDup _ Hu).
+  set (keep := filter (fun kv => memZ (fst kv) u) pl).
+  assert (Hk : ids keep = u) by (apply filter_ids_sorted_eq; auto).
+  assert (Hlen : (List.length u <= List.length pl)%nat).
+  { rewrite <- (map_length fst pl). apply NoDup_incl_length; auto. }
+  destruct (Nat.eq_dec (List.length pl) (List.length u)) as [E|E].
+  - rewrite reconcile_equal by auto.
+    assert (Hall : keep = pl).
+    { apply filter_all_id. intros [i p] Hi. simpl. apply memZ_In.
+      assert (I : incl (ids pl) u).
+      { apply NoDup_length_incl; auto. unfold ids. rewrite map_length. lia. }
+      apply I. eapply In_ids; eauto. }
+    rewrite <- Hk at 1. rewrite Hall. apply combine_ids_snd.
+  - rewrite reconcile_more by (auto; lia).
+    destruct (drop_set_props pl u Hs ltac:(lia)) as [D1 [D2 [D3 D4]]].
+    replace (filter (fun kv => negb (memZ (fst kv) (drop_set pl u))) pl) with keep.
+    + rewrite <- Hk at 1. apply combine_ids_snd.
+    + unfold keep. apply filter_ext_in. intros [i p] Hi. simpl.
+      destruct (memZ i u) eqn:M.
+      * apply memZ_In in M. symmetry. apply negb_true_iff, memZ_false. intros HD. apply (D3 _ HD M).
+      * apply memZ_false in M. symmetry. apply negb_false_iff, memZ_In.
+        (* the absent ids are exactly |pl| - |u| many, so all of them are dropped *)
+        set (ab := absent u (ids pl)).
+        assert (Hab : NoDup ab) by (apply NoDup_filter; auto).
+        assert (Hlab : List.length ab = (List.length pl - List.length u)%nat).
+        { pose proof (filter_split_length (fun i => memZ i u) (ids pl)) as S.
+          assert (P : Permutation (filter (fun i => memZ i u) (ids pl)) u).
+          { apply NoDup_Permutation; auto; [apply NoDup_filter; auto|].
+            intros x. rewrite filter_In, memZ_In. split; [tauto|auto]. }
+          apply Permutation_length in P. unfold ab, absent.
+          unfold ids in S at 3. rewrite map_length in S. lia. }
+        assert (I : incl ab (drop_set pl u)).
+        { apply NoDup_length_incl; auto; [lia|].
+          intros x Hx. apply absent_In. split; auto. }
+        apply I. apply absent_In. split; auto. eapply In_ids; eauto.
+Qed.
